@@ -32,7 +32,7 @@ import traceback
 PROPERTY = "C08"
 LEVEL = "exploration"
 RULE = (
-    "all expressions from {BoostMatrix, BoostMatrix(NegativeMomentum), BoostZMatrix(symbol"
+    "all expressions from {BoostMatrix, BoostMatrix(NegativeMomentum) (also nested two and three times), BoostZMatrix(symbol"
     " / p_z/E), RotationY/ZMatrix, MinkowskiMetric, NegativeMomentum, the named law"
     " expressions (rest frame, inverse, round trip, z-boost = boost, R(a)R(b)=R(a+b), R(a)R(-a)=1)"
     " and all MatrixMultiplication / ArrayMultiplication chains over {B,Bz,Ry,Rz} up to the"
@@ -63,7 +63,7 @@ EPS = 1e-12
 KNOWN_TAG = "boostmatrix-cse-false-codegen"
 
 MATS = ["B", "BzS", "Ry", "Rz"]
-BOOSTS = {"B", "Bneg", "BzS", "BzP"}
+BOOSTS = {"B", "Bneg", "Bnn", "Bnnn", "BzS", "BzP"}
 
 
 # ------------------------------------------------------------------ enumeration
@@ -71,7 +71,7 @@ def _chain(op, classes, with_vec=None):
     """Chain with position-specific symbols (p<i>, b<i>, a<i>) and vector q."""
     factors = []
     for i, cls in enumerate(classes):
-        if cls in {"B", "Bneg", "BzP", "eta"}:
+        if cls in {"B", "Bneg", "Bnn", "Bnnn", "BzP", "eta"}:
             factors.append([cls, f"p{i}"])
         elif cls == "BzS":
             factors.append([cls, f"b{i}"])
@@ -108,6 +108,12 @@ def _named_items():
     add("inv:MM(B(p),B(-p))", "MM", [["B", "p0"], ["Bneg", "p0"]], expect="identity")
     add("inv:AM(B(-p),B(p)|q)", "AM", [["Bneg", "p0"], ["B", "p0"]], ["p", "q"], tol="G",
         same_as={"id": "AM(|q)", "op": "AM", "factors": [], "vec": ["p", "q"]})
+    # space inversion applied twice / three times is the momentum itself / its inversion
+    add("S:BoostMatrix(P(P(p)))", "single", [["Bnn", "p0"]])
+    add("S:BoostMatrix(P(P(P(p))))", "single", [["Bnnn", "p0"]])
+    add("rest:AM(B(PPp)|p)", "AM", [["Bnn", "p0"]], ["p", "p0"], expect="rest")
+    add("inv:MM(B(PPp),B(-p))", "MM", [["Bnn", "p0"], ["Bneg", "p0"]], expect="identity")
+    add("inv:MM(B(PPPp),B(p))", "MM", [["Bnnn", "p0"], ["B", "p0"]], expect="identity")
     # z-boost = general boost for p along +z and -z, beta = p_z / E
     add("z:BoostZMatrix(beta)=BoostMatrix(p)", "single", [["BzS", "b0"]], zonly=True,
         bind={"b0": "p0"},
@@ -189,6 +195,10 @@ def cases(tier, seed):
         for path in ("code", "explicit"):
             for cse in (False, True):
                 for n in batches(tier):
+                    if not cse and features(item) & {"Bnn", "Bnnn"} and n != max(batches(tier)):
+                        continue  # uncompressed code of nested inversions is large: one batch size
+                    if not cse and "Bnnn" in features(item) and tier != "thorough":
+                        continue  # (~100 s per case)
                     out.append({"item": item, "path": path, "cse": cse, "batch": n,
                                 "tier": tier, "seed": seed})
     return out
@@ -199,14 +209,14 @@ def _lattice_params(tier):
     if tier == "thorough":
         return {
             "n_generic": 40,
-            "bg": [1e-6, 1e-3, 1e-2, 0.1, 0.3, 1.0, 3.0, 10.0, 1e2, 1e3, 1e4],
+            "bg": [1e-10, 1e-8, 1e-6, 1e-3, 1e-2, 0.1, 0.3, 1.0, 3.0, 10.0, 1e2, 1e3, 1e4],
             "mass": [1e-5, 1e-3, 1.0, 1e3],
             "angle_div": 12,
             "near_axis": True,
         }
     return {
         "n_generic": 12,
-        "bg": [1e-3, 0.1, 1.0, 10.0, 1e3],
+        "bg": [1e-8, 1e-3, 0.1, 1.0, 10.0, 1e3],
         "mass": [1e-4, 0.1, 1.0, 10.0],
         "angle_div": 6,
         "near_axis": False,
@@ -337,7 +347,7 @@ def item_symbols(item):
 
     def visit(it):
         for cls, arg in it["factors"]:
-            if cls in {"B", "Bneg", "BzP", "eta"}:
+            if cls in {"B", "Bneg", "Bnn", "Bnnn", "BzP", "eta"}:
                 seen.setdefault(arg, "mom")
             else:
                 for _, name in _parse_sum(arg):
@@ -482,6 +492,10 @@ def build_factor(factor, table, n_events):
         return lz.BoostMatrix(table[arg])
     if cls == "Bneg":
         return lz.BoostMatrix(lz.NegativeMomentum(table[arg]))
+    if cls == "Bnn":
+        return lz.BoostMatrix(lz.NegativeMomentum(lz.NegativeMomentum(table[arg])))
+    if cls == "Bnnn":
+        return lz.BoostMatrix(lz.NegativeMomentum(lz.NegativeMomentum(lz.NegativeMomentum(table[arg]))))
     if cls == "BzS":
         return lz.BoostZMatrix(_arg_expr(arg, table), n_events)
     if cls == "BzP":
@@ -620,9 +634,9 @@ def ref_factor(factor, data):
     from vp.ref import kin  # noqa: PLC0415
 
     cls, arg = factor
-    if cls in {"B", "Bneg"}:
+    if cls in {"B", "Bneg", "Bnn", "Bnnn"}:
         d = data[arg]
-        n = d["n"] if cls == "B" else -d["n"]
+        n = d["n"] if cls in {"B", "Bnn"} else -d["n"]
         return kin.boost(d["bg"], n), kin.gamma_of(d["bg"])
     if cls == "BzP":
         d = data[arg]
@@ -709,7 +723,7 @@ def features(item):
 
 
 def has_boostmatrix(item):
-    return bool(features(item) & {"B", "Bneg"})
+    return bool(features(item) & {"B", "Bneg", "Bnn", "Bnnn"})
 
 
 def _eval_argexpr(case):
